@@ -1065,6 +1065,10 @@ class CircuitTemplate(AbstractBaseTemplate):
         net = self.circuits if self.circuits else self.nodes
         net_node = net[node[0]]
         if isinstance(net_node, CircuitTemplate):
+            # the sub-circuit template may be shared (used for several sub-circuits or by other circuits):
+            # give this branch of the hierarchy its own instance before altering it
+            net_node = net_node.update_template()
+            net[node[0]] = net_node
             net_node.add_node_template(node[1:], template=template)
         else:
             self.nodes[node[0]] = template
